@@ -29,6 +29,17 @@ class PlantedError(GlomError):
         return 'planted %d' % self.n
 
 
+class AlienError(LookupError):
+    """raised by a failing leaf whose fate is 'alien': not a GlomError (no branching spec recovers from it;
+    glom() wraps it at the very end), and -- like KeyError or OSError -- a class with its own __str__"""
+    def __init__(self, n):
+        self.n = n
+        super().__init__(n)
+
+    def __str__(self):
+        return PlantedError.get_message(self)
+
+
 MULTILINE_FOR = [0]     # leaf execution number whose PlantedError carries a multi-line message
 
 
@@ -86,6 +97,8 @@ class Leaf:
         n = r.leaf
         if n <= len(r.plan) and r.plan[n - 1] == 'err':
             raise PlantedError(n)
+        if n <= len(r.plan) and r.plan[n - 1] == 'alien':
+            raise AlienError(n)
         if self.kind == 'new':
             return Tok((n,))
         if self.kind == 'copy':
@@ -436,7 +449,7 @@ def execute(tree, plan, caller_scope=None, hook=True, prebuilt=None, big_root=Fa
                 root.ident, root.eqclass = (0,), (0,)
             res = _glom_fn(root, spec, **kw)
             out = {'out': 'ok', 'error': None}
-        except GlomError as e:
+        except (GlomError, AlienError) as e:
             out = {'out': 'err', 'error': e}
     finally:
         MULTILINE_FOR[0] = 0
